@@ -8,3 +8,14 @@ package file
 //@   requires source != nil
 //@   ensures[returns-receiver] r == e
 //@   assigns obj(e)
+
+// contents is indexed in runes, so line offsets are counted in runes: each line contributes its rune count
+// plus one for the newline (C13: the snippet shown for a location is the line it names, also after a
+// non-ASCII line)
+//@ func file.Source.updateOffsets
+//@   property C13
+//@   mode panics
+//@   requires s != nil
+//@   assigns obj(s)
+//@   loop 0 modifies obj(offsets)
+//@   loop 0 body-ensures[rune-units] offset == head(offset) + int32(runes(line)) + 1
